@@ -78,6 +78,10 @@ func main() {
 		r.Sample(kd.describe())
 	}
 
+	// the struct-valued universe takes part at the combiner level only
+	allKinds := kinds
+	kinds = kinds[:3]
+
 	tmp := os.TempDir()
 	before := listDir(tmp)
 
@@ -130,6 +134,7 @@ func main() {
 	var mu sync.Mutex
 	var results []bfsResult
 	var hot *hotStats
+	var srs *srStats
 	finish := func() {
 		mu.Lock()
 		defer mu.Unlock()
@@ -145,7 +150,7 @@ func main() {
 			r.Violate("C09/combiner/tmpdir/spill-dir-left", fmt.Sprintf("%d spiller directories left under TMPDIR after all combiners were read back, e.g. %s", len(left), left[0]), left)
 		}
 		pprof.StopCPUProfile()
-		r.Finish(coverage(results, fst, cst, hot, framePlans, combPlans))
+		r.Finish(coverage(results, fst, cst, hot, srs, framePlans, combPlans))
 	}
 	go watchdog(r, func(sp space, h hist) {
 		sig := "C09/" + strings.Join(strings.Split(sp.label(), "/")[:2], "/") + "/" + lastOpClass(sp.alpha(), h) + "/hang"
@@ -203,6 +208,19 @@ func main() {
 		}
 	}
 
+	// ---- struct-value family: pointer-free struct values, runs longer than 3 batches ---
+	if want("structvalue") {
+		if r.Elapsed() > budget {
+			srs = &srStats{Skipped: true}
+			r.NotExhaustive("time budget: struct-value family not run")
+		} else {
+			x := structValueFamily(r, allKinds[3])
+			mu.Lock()
+			srs = x
+			mu.Unlock()
+		}
+	}
+
 	// ---- phase B: spilling combiner ---------------------------------------------
 	for _, p := range combPlans {
 		exec.VerifC09SetCombiningFrameSizes(p.z.InitCap, p.z.Scratch)
@@ -212,7 +230,7 @@ func main() {
 		sortio.VerifC09SetChunk(p.z.SortioChunk)
 		sliceio.SpillBatchSize = p.z.SpillBatch
 		al := spillAlphabet(p.nops)
-		for _, kd := range kinds {
+		for _, kd := range allKinds {
 			if !hasKind(p.kinds, kd) {
 				continue
 			}
@@ -251,7 +269,10 @@ func listDir(dir string) map[string]bool {
 	return out
 }
 
-func coverage(results []bfsResult, f *frameStats, c *combStats, hot *hotStats, fp []framePlan, cp []combPlan) ev.Coverage {
+func coverage(results []bfsResult, f *frameStats, c *combStats, hot *hotStats, srs *srStats, fp []framePlan, cp []combPlan) ev.Coverage {
+	if srs == nil {
+		srs = &srStats{}
+	}
 	if hot == nil {
 		hot = &hotStats{}
 	}
@@ -305,7 +326,7 @@ func coverage(results []bfsResult, f *frameStats, c *combStats, hot *hotStats, f
 	return ev.Coverage{
 		"states":                        states,
 		"transitions":                   trans,
-		"traces_validated_against_impl": f.traces + c.readbacks + hot.Cases, // every replay on a fresh real object
+		"traces_validated_against_impl": f.traces + c.readbacks + hot.Cases + srs.Cases, // every replay on a fresh real object
 		"max_depth":                     maxDepth,
 		// non-vacuity, measured over every executed history:
 		"histories_reaching_a_resize":         f.withResize,
@@ -345,8 +366,9 @@ func coverage(results []bfsResult, f *frameStats, c *combStats, hot *hotStats, f
 			"spilled_and_table_grew":       c.spillAfterGr,
 			"distinct_readback_outcomes":   c.outcomes.Distinct(),
 		},
-		"hotkey":    hot,
-		"spaces":    spaces,
-		"alphabets": alphabets,
+		"hotkey":      hot,
+		"structvalue": srs,
+		"spaces":      spaces,
+		"alphabets":   alphabets,
 	}
 }
